@@ -5,11 +5,10 @@
   error (the error paths are modelled in Flat/Parser.lean, not here).
 -/
 import PenneModel.Syn.Ast
+import PenneModel.Flat.Parser
 
 namespace Syn
 open Flat (Kind)
-
-abbrev Option ((α : Type) × List Tok) := Option (α × List Tok)
 
 def kindOf : List Tok → Kind
   | [] => .EndOfSource
